@@ -534,6 +534,9 @@ func buildReqList(r ReqList, mask bool) []byte {
 				copy(rec[20:84], pk[:])
 			}
 		}
+		if ty == goattypes.UpdateTokenWeightRequestType && bytes.Equal(rec[0:20], make([]byte, 20)) && binary.LittleEndian.Uint64(rec[20:28]) == 0 {
+			rec[20] = 1 // the anchor's token (the zero address) keeps a weight: see the restriction above
+		}
 		if mask {
 			// amounts are 32-byte big-endian fields at the end of lock/unlock/grant/threshold/gas records: keep them below 2^128
 			switch ty {
@@ -544,7 +547,6 @@ func buildReqList(r ReqList, mask bool) []byte {
 			case goattypes.UpdateTokenWeightRequestType:
 				// weights: keep total voting power far below CometBFT's limit
 				binary.LittleEndian.PutUint64(rec[20:28], binary.LittleEndian.Uint64(rec[20:28])%(1<<20))
-				binary.BigEndian.PutUint64(rec[20:28], binary.BigEndian.Uint64(rec[20:28])%(1<<20))
 			}
 		}
 		out = append(out, rec...)
